@@ -491,7 +491,11 @@ func (r *Run) Finish(rule string) {
 	if os.Getenv("VERIF_REPLAY") == "" && os.Getenv("VERIF_NO_EVIDENCE") == "" {
 		os.MkdirAll(filepath.Join(vd, "evidence"), 0755)
 		b, _ := json.MarshalIndent(ev, "", " ")
-		if err := os.WriteFile(filepath.Join(vd, "evidence", r.Prop+".json"), append(b, '\n'), 0644); err != nil {
+		evName := r.Prop
+		if n := os.Getenv("VERIF_EVIDENCE_NAME"); n != "" {
+			evName = n // an extra part of a check (driver: run_all) writes evidence/<ID>.<part>.json
+		}
+		if err := os.WriteFile(filepath.Join(vd, "evidence", evName+".json"), append(b, '\n'), 0644); err != nil {
 			fmt.Println("HARNESS-ERROR", err)
 			os.Exit(2)
 		}
